@@ -245,7 +245,7 @@ class Seams(object):
             # ||A|| ~ 1e16 (or NaN) and the call would run for hours.  The simulator bounds it: the call raises.
             with np.errstate(all="ignore"):
                 nrm = float(np.max(np.sum(np.abs(a0), axis=0)))
-            if not (nrm <= 1.0e5):  # also catches NaN/inf
+            if not (nrm <= 2.0e2):  # also catches NaN/inf
                 self.probes["work_budget_cut:" + kname] += 1
                 self.kernel_events.append((full, shape, "budget-cut"))
                 raise LinAlgError("simulated: work budget of %s exceeded (||A||_1 = %.3g)" % (kname, nrm))
